@@ -17,18 +17,19 @@ import (
 // (except the twins, which are always aliased per parent type).
 
 type gen struct {
-	w       *world
-	r       *rng.R
-	doc     *gDoc
-	op      *gOp // operation whose variables may be used (nil: none)
-	byResp  map[string]string // response name -> "field(args)"
-	argsOf  map[string][]gArg // response name -> canonical arguments
-	nAlias  int
-	nVar    int
-	nFrag   int
-	maxDep  int
-	budget  int // remaining selections
-	inFrag  *gFrag
+	w      *world
+	r      *rng.R
+	doc    *gDoc
+	op     *gOp              // operation whose variables may be used (nil: none)
+	byResp map[string]string // response name -> "field(args)"
+	argsOf map[string][]gArg // response name -> canonical arguments
+	nAlias int
+	nVar   int
+	nFrag  int
+	maxDep int
+	budget int // remaining selections
+	inFrag *gFrag
+	inItem bool // generating an item of a list literal: no item-to-list coercion
 }
 
 var twins = map[string]bool{"t": true, "tl": true, "to": true, "ta": true, "tol": true, "ton": true}
@@ -192,14 +193,18 @@ func (g *gen) literalNN(t schema.Type, depth int, vars bool) string {
 	r := g.r
 	switch t := t.(type) {
 	case *schema.ListType:
-		if _, inner := schema.NullableType(t.Type).(*schema.ListType); !inner && r.Chance(1, 4) {
-			// a single item coerced to a list: a literal (a variable of the item type would be invalid)
+		if _, inner := schema.NullableType(t.Type).(*schema.ListType); !inner && !g.inItem && r.Chance(1, 4) {
+			// a single item coerced to a list: a literal (a variable of the item type would be invalid);
+			// only for the value as a whole, never for an item of a list literal
 			return g.literalNN(schema.NullableType(t.Type), depth, vars)
 		}
 		n := r.Intn(4)
 		if depth > 3 {
 			n = r.Intn(2)
 		}
+		wasItem := g.inItem
+		g.inItem = true
+		defer func() { g.inItem = wasItem }()
 		var items []string
 		for i := 0; i < n; i++ {
 			if _, inner := schema.NullableType(t.Type).(*schema.ListType); inner {
@@ -241,6 +246,10 @@ func (g *gen) literalNN(t schema.Type, depth int, vars bool) string {
 	case *schema.EnumType:
 		return rng.Pick(r, sortedKeys(t.Values))
 	case *schema.InputObjectType:
+		// the value of an input object field is coerced like an argument value
+		wasItem := g.inItem
+		g.inItem = false
+		defer func() { g.inItem = wasItem }()
 		var fs []string
 		for _, n := range sortedKeys(t.Fields) {
 			def := t.Fields[n]
@@ -269,6 +278,9 @@ func (g *gen) listItemList(t schema.Type, depth int, vars bool) string {
 	}
 	lt := t.(*schema.ListType)
 	n := g.r.Intn(3)
+	wasItem := g.inItem
+	g.inItem = true
+	defer func() { g.inItem = wasItem }()
 	var items []string
 	for i := 0; i < n; i++ {
 		items = append(items, g.sub(lt.Type, depth+1, vars))
